@@ -94,3 +94,50 @@ Proof.
     + rewrite andb_false_r. reflexivity.
     + rewrite negb_involutive, andb_true_r. reflexivity.
 Qed.
+
+(* ---------- the narrowed trigger ---------- *)
+Lemma prefix_trans : forall a b n, String.prefix a b = true -> String.prefix b n = true -> String.prefix a n = true.
+Proof.
+  induction a as [|c a IH]; intros b n H1 H2; [apply prefix_empty|].
+  destruct b as [|c1 b]; [discriminate|]. destruct n as [|c2 n]; [discriminate|].
+  cbn [String.prefix] in *.
+  destruct (ascii_dec c c1) as [E1|E1]; [|discriminate].
+  destruct (ascii_dec c1 c2) as [E2|E2]; [|discriminate].
+  subst. destruct (ascii_dec c2 c2) as [_|N]; [|congruence]. eapply IH; eauto.
+Qed.
+
+Lemma trig_both_narrow : forall prefix pat, trig_both prefix pat = false -> trig_narrow prefix pat = false.
+Proof. intros prefix pat H. unfold trig_narrow. rewrite H. reflexivity. Qed.
+
+Lemma trig_narrow_none : forall prefix, trig_narrow prefix "" = false.
+Proof. intros. apply trig_both_narrow. unfold trig_both. cbn. apply andb_false_r. Qed.
+
+(* a pattern with a non-empty literal prefix that extends the requested prefix: the literal
+   prefix replaces the requested one without changing the selection *)
+Lemma match_agrees_narrow : forall prefix pat excl n,
+  trig_narrow prefix pat = false ->
+  String.prefix (eff_prefix prefix pat) n &&
+  negb (missed (eff_prefix prefix pat) (snd (split_pattern pat)) excl n) =
+  spec_match prefix pat excl n.
+Proof.
+  intros prefix pat excl n Hn.
+  destruct (trig_both prefix pat) eqn:Hb; [|apply match_agrees; exact Hb].
+  unfold trig_narrow in Hn. rewrite Hb in Hn. cbn [andb] in Hn.
+  apply negb_false_iff in Hn. apply andb_true_iff in Hn. destruct Hn as [Hpp Hpre].
+  apply negb_true_iff in Hpp.
+  unfold trig_both in Hb. apply andb_true_iff in Hb. destruct Hb as [_ Hpat].
+  apply negb_true_iff in Hpat. pose proof Hpat as Ep. apply String.eqb_neq in Hpat.
+  destruct (split_pattern_ok pat Hpat) as [Hsplit [Hlit Hrest]].
+  unfold spec_match, missed, eff_prefix.
+  set (pp := fst (split_pattern pat)) in *. set (rest := snd (split_pattern pat)) in *.
+  rewrite Hpp, Ep. cbn [orb].
+  rewrite (proj2 (String.eqb_neq rest "") Hrest). cbn [negb andb].
+  replace (glob pat n) with (glob (pp ++ rest) n) by (rewrite <- Hsplit; reflexivity).
+  rewrite (glob_literal pp rest n Hlit).
+  destruct (String.prefix pp n) eqn:Epn; cbn [andb].
+  - rewrite (prefix_trans prefix pp n Hpre Epn). cbn [andb].
+    destruct (negb (String.eqb excl "") && glob excl n); cbn [orb negb andb].
+    + rewrite andb_false_r. reflexivity.
+    + rewrite negb_involutive, andb_true_r. reflexivity.
+  - rewrite andb_false_r. reflexivity.
+Qed.
